@@ -2,6 +2,8 @@
 
 // C09 — OCSP: whatever the responder URL strings and the bytes the servers return (harnesses of C04)
 //verif:pkg revocation/internal/ocsp
+// for the bounded inputs of these harnesses no loop of the code under test runs anywhere near 300 iterations: more is a hang
+//verif:terminates github.com/notaryproject/notation-core-go/ 300
 //verif:include ../C04/common_env.go
 //verif:include ../C04/l1a_execute.go
 //verif:include ../C04/l1b_status.go
